@@ -432,3 +432,26 @@ func checkScannerBuffers(p *Prog, r *Report, rule string) {
 	sort.Strings(bad)
 	r.Check(len(bad) == 0 && n >= 4, rule, "line-readers/token-limit", "-", "no bufio.Scanner of the repository lowers the line limit below the 64 KiB default", strings.Join(bad, "; "))
 }
+
+// isDecodeCall: a call that decodes one JSON line into a value through the type's generated decoder:
+// `v.UnmarshalJSON(data)` or `easyjson.Unmarshal(data, &v)` (which builds the same lexer over data, runs
+// v.UnmarshalEasyJSON and returns the lexer's error). encoding/json.Unmarshal is not in this class (it
+// validates the whole input first and so fails on other inputs).
+func isDecodeCall(c *ssa.CallCommon) bool {
+	cf := calleeFull(c)
+	if strings.HasSuffix(cf, ".UnmarshalJSON") && len(c.Args) == 2 {
+		return true
+	}
+	return cf == "github.com/mailru/easyjson.Unmarshal" && len(c.Args) == 2
+}
+
+// decodeTarget returns the pointer the decode call writes through.
+func decodeTarget(c *ssa.CallCommon) ssa.Value {
+	if calleeFull(c) == "github.com/mailru/easyjson.Unmarshal" {
+		if mi, ok := c.Args[1].(*ssa.MakeInterface); ok {
+			return mi.X
+		}
+		return c.Args[1]
+	}
+	return c.Args[0]
+}
